@@ -2,6 +2,7 @@
 package props
 
 import (
+	"regexp"
 	"kverif/core"
 )
 
@@ -31,3 +32,49 @@ type NOREACH = core.NOREACH
 type TABLE = core.TABLE
 
 type ITER = core.ITER
+
+// errClassifier: the provider-error classifier cloudprovider.Is<T>(err) answers true only for an error that wraps a *T
+// (errors.As into a *T) and never for nil; the matching Ignore<T> maps exactly the classified errors to nil and passes
+// every other error on. Callers treat "classified" as a fact about the instance ("it is gone", "no capacity"), so a
+// classifier that also accepts other errors turns transient failures into those facts.
+func errClassifier(idPrefix, typ string, withIgnore bool) []Rule {
+	is := "cloudprovider.Is" + typ
+	rules := []Rule{
+		core.Custom{ID: idPrefix + "a", Kind: "TT", Run: func(w *core.World, id string) []core.Result {
+			fn := w.Fn(is)
+			if fn == nil {
+				return []core.Result{core.Anchor(id, "TT", is)}
+			}
+			construct := "TT:" + is
+			want := regexp.MustCompile(`^errors\.As\(\$0, <\*\*cloudprovider\.` + typ + `>&local<\*cloudprovider\.` + typ + `>\)$`)
+			var out []core.Result
+			n := 0
+			for _, s := range w.ReturnSinks(fn, core.RetTrue) {
+				n++
+				if s.Lit == nil || !s.Lit.Pol || !want.MatchString(s.Lit.Expr) {
+					out = append(out, core.Bad(id, "TT", construct, w.InstrPos(s.Ret), is+" can answer true by `"+s.Desc+"`: only an error wrapping *"+typ+" may be classified"))
+				}
+				if !w.RetGuarded(s, G(`-^\$0 == nil$`)) {
+					out = append(out, core.Bad(id, "TT", construct, w.InstrPos(s.Ret), is+" can answer true for a nil error"))
+				}
+			}
+			if n == 0 {
+				out = append(out, core.Bad(id, "TT", construct, w.Pos(fn.Pos()), "vacuous: never true"))
+			}
+			if len(out) == 0 {
+				out = append(out, core.OK(id, "TT", construct, n, "true ⇔ errors.As(err, **"+typ+")"))
+			}
+			return out
+		}},
+	}
+	if withIgnore {
+		ig := "cloudprovider.Ignore" + typ
+		rules = append(rules,
+			MPT{ID: idPrefix + "b", Fn: ig, Ret: core.RetNilConst, Gates: gates(G(`+^cloudprovider\.Is`+typ+`\(\$0\)$`))},
+			core.Custom{ID: idPrefix + "c", Kind: "PROV", Run: func(w *core.World, id string) []core.Result {
+				return core.InstrPresent(w, id, "PROV", ig, `^return \$0$`, 1, "any other error is passed on unchanged")
+			}},
+		)
+	}
+	return rules
+}
